@@ -153,3 +153,30 @@ def isolate_locks():
     _LOCKS["registry"] = threadsim.install_sim_locks(mods)
     _LOCKS["done"] = True
     return _LOCKS["registry"]
+
+
+def clear_functools_caches():
+    """Empty every functools cache of the permuta modules (module-level functions and
+    class attributes): a history that does not want to start on what earlier histories of
+    the process left behind calls this first, so that executed-line counts (the positions
+    of injected interruptions) are a function of the case alone."""
+    import sys  # pylint: disable=import-outside-toplevel
+
+    n = 0
+    for name, mod in sorted(sys.modules.items()):
+        if mod is None or not (name == "permuta" or name.startswith("permuta.")):
+            continue
+        for val in list(vars(mod).values()):
+            owners = [val]
+            if isinstance(val, type) and getattr(val, "__module__", None) == name:
+                owners += [getattr(c, "__func__", c) for c in list(vars(val).values())]
+            for cand in owners:
+                cand = getattr(cand, "__func__", cand)
+                clear = getattr(cand, "cache_clear", None)
+                if callable(clear) and callable(getattr(cand, "cache_info", None)):
+                    try:
+                        clear()
+                        n += 1
+                    except Exception:  # pylint: disable=broad-except
+                        pass
+    return n
